@@ -5,9 +5,11 @@ import (
 	"encoding/json"
 	"fmt"
 	"math/rand"
+	"net"
 	"os"
 	"strings"
 	"testing"
+	"time"
 
 	"github.com/bokysan/socketace/v2/internal/zzverif/e2e"
 	"github.com/bokysan/socketace/v2/internal/zzverif/vcommon"
@@ -20,7 +22,8 @@ type c01Case struct {
 	LenT2C   int64  `json:"len_t2c"`
 	SegC2T   int    `json:"write_size_c2t"` // 0 = whole payload, -1 = random partition
 	SegT2C   int    `json:"write_size_t2c"`
-	Content  int    `json:"content"` // 0 keyed, 1 zeros, 2 ones
+	Content  int    `json:"content"`           // 0 keyed, 1 zeros, 2 ones
+	Chan     string `json:"channel,omitempty"` // "echo" (default) or "echo2": two channels whose names share a prefix
 	Seed     int64  `json:"seed"`
 }
 
@@ -111,7 +114,11 @@ func runCase(rec *vcommon.Rec, p *e2e.Pair, c *c01Case) (openFailed bool) {
 	rec.Mark(c)
 	key := fmt.Sprintf("%s/%s/%d/%d/%d/%d/%d", c.Carrier, c.Listener, c.LenC2T, c.LenT2C, c.SegC2T, c.SegT2C, c.Content)
 	sigBase := c.Carrier + ":" + c.Listener
-	app, tgt, o, err := p.Open("echo")
+	chn := c.Chan
+	if chn == "" || p.Targets[chn] == nil {
+		chn = "echo"
+	}
+	app, tgt, o, err := p.Open(chn)
 	if err != nil {
 		rec.Violation(sigBase+":open-failed", c, err.Error())
 		return true
@@ -129,6 +136,15 @@ func runCase(rec *vcommon.Rec, p *e2e.Pair, c *c01Case) (openFailed bool) {
 		return false
 	}
 	if o == e2e.Stalled {
+		for name, t := range p.Targets {
+			if name != chn {
+				if stray := t.TryNext(); stray != nil {
+					stray.Close()
+					rec.Violation(sigBase+":open:connected-to-the-target-of-another-channel", c, map[string]string{"asked_for": chn, "reached": name})
+					return true
+				}
+			}
+		}
 		rec.Violation(sigBase+":open:target-never-connected", c, map[string]interface{}{"goroutines": e2e.Clip(e2e.Stacks(), 60000)})
 		return true
 	}
@@ -189,7 +205,11 @@ func cases(rec *vcommon.Rec, carrier, lst string) []*c01Case {
 	}
 	var out []*c01Case
 	add := func(a, b int64, sa, sb, content int) {
-		out = append(out, &c01Case{Carrier: carrier, Listener: lst, LenC2T: a, LenT2C: b, SegC2T: sa, SegT2C: sb, Content: content,
+		ch := "echo"
+		if len(out)%3 == 1 {
+			ch = "echo2" // every third connection goes to the second channel (its name extends the first one's)
+		}
+		out = append(out, &c01Case{Carrier: carrier, Listener: lst, LenC2T: a, LenT2C: b, SegC2T: sa, SegT2C: sb, Content: content, Chan: ch,
 			Seed: rec.Seed()*100000 + int64(len(out))})
 	}
 	if rec.Thorough() && !strings.HasPrefix(carrier, "dns") && !strings.HasPrefix(carrier, "udp") {
@@ -238,6 +258,84 @@ func cases(rec *vcommon.Rec, carrier, lst string) []*c01Case {
 	return out
 }
 
+// runSlow: fidelity must not depend on how long a transfer takes: a one-way stream that trickles for longer
+// than every keep-alive interval involved (35 s quick / 65 s thorough), first application -> target with
+// nothing flowing back, then target -> application, is verified like any other payload.
+func runSlow(rec *vcommon.Rec, carrier string, d time.Duration) {
+	c := map[string]interface{}{"scenario": "slow-one-way", "carrier": carrier, "seconds_each_way": d.Seconds()}
+	rec.Mark(c)
+	p, err := e2e.Start(e2e.Options{Carrier: carrier, Tag: "w"})
+	if err != nil {
+		rec.Violation(carrier+":unix:setup-failed", c, err.Error())
+		return
+	}
+	defer p.Close()
+	app, tgt, o, err := p.Open("echo")
+	if err != nil || o != e2e.Done {
+		rec.Inconclusive("slow: open failed", c)
+		return
+	}
+	defer app.Close()
+	defer tgt.Close()
+	oneWay := func(w, r net.Conn, key uint64, dir string) string {
+		steps := int(d / (100 * time.Millisecond))
+		total := int64(steps) * 700
+		var rerr string
+		rd := e2e.Go(func() {
+			buf := make([]byte, 8192)
+			got := int64(0)
+			for got < total {
+				n, err := r.Read(buf)
+				if n > 0 {
+					if bad := vcommon.CheckKeyed(key, got, buf[:n]); bad >= 0 {
+						rerr = fmt.Sprintf("mismatch at offset %d", got+int64(bad))
+						return
+					}
+					got += int64(n)
+					e2e.Bump(n)
+				}
+				if err != nil {
+					rerr = fmt.Sprintf("stream ended after %d of %d bytes: %v", got, total, err)
+					return
+				}
+			}
+		})
+		chunk := make([]byte, 700)
+		sent := int64(0)
+		for i := 0; i < steps; i++ {
+			vcommon.FillKeyed(key, sent, chunk)
+			if _, err := w.Write(chunk); err != nil {
+				return fmt.Sprintf("write failed after %d bytes (%.0f s): %v", sent, float64(i)/10, err)
+			}
+			sent += 700
+			time.Sleep(100 * time.Millisecond)
+		}
+		if e2e.Wait(rd) == e2e.Stalled && rerr == "" {
+			rerr = "receiver stalled"
+		}
+		if rerr == "" {
+			rec.Stat("bytes_verified_"+dir+":"+carrier, total)
+		}
+		return rerr
+	}
+	k := uint64(rec.Seed())*131 + 3
+	for _, dir := range []string{"c2t", "t2c"} {
+		var e string
+		if dir == "c2t" {
+			e = oneWay(app, tgt, k, dir)
+		} else {
+			e = oneWay(tgt, app, k+1, dir)
+		}
+		rec.Case("slow/"+carrier+"/"+dir, true)
+		rec.Seen("tuple(carrier,len-class,write-size,direction)", carrier+"|slow-trickle|700|"+dir)
+		if e != "" {
+			rec.Violation(carrier+":unix:"+dir+":slow-one-way-transfer-cut", c, e)
+			return
+		}
+	}
+	rec.Stat("slow_transfers_completed:"+carrier, 1)
+}
+
 func TestVerifC01(t *testing.T) {
 	e2e.Quiet()
 	rec := vcommon.Open()
@@ -275,8 +373,15 @@ func TestVerifC01(t *testing.T) {
 	for _, c := range []string{"tcp", "wss", "udp"} {
 		items = append(items, item{c, "socks"}) // the channel is the server's built-in SOCKS5 proxy
 	}
+	for _, c := range []string{"tcp", "ws", "udp", "dns"} {
+		items = append(items, item{c, "slow"})
+	}
 	for idx, it := range items {
 		if !rec.Mine(idx) {
+			continue
+		}
+		if it.Lst == "slow" {
+			runSlow(rec, it.Carrier, time.Duration(rec.Pick(35, 65))*time.Second)
 			continue
 		}
 		cs := cases(rec, it.Carrier, it.Lst)
@@ -298,7 +403,7 @@ func TestVerifC01(t *testing.T) {
 			continue
 		}
 		// tcp listeners go with tcp targets, unix listeners with unix targets: both channel address kinds are covered
-		p, err := e2e.Start(e2e.Options{Carrier: it.Carrier, Listener: it.Lst, Channels: []e2e.ChanSpec{{Name: "echo", TargetNet: it.Lst}}})
+		p, err := e2e.Start(e2e.Options{Carrier: it.Carrier, Listener: it.Lst, Channels: []e2e.ChanSpec{{Name: "echo", TargetNet: it.Lst}, {Name: "echo2", TargetNet: it.Lst}}})
 		if err != nil {
 			rec.Violation(it.Carrier+":"+it.Lst+":setup-failed", map[string]string{"carrier": it.Carrier, "listener": it.Lst}, err.Error())
 			continue
